@@ -36,6 +36,20 @@ Theorem C14_holder_only_turn : forall thr who fl r s tick r' s' pn evs,
 Proof. exact holder_only_turn. Qed.
 Print Assumptions C14_holder_only_turn.
 
+(** The same inside an arbitrary execution at the granularity of single DB
+    operations (any number of servers [ids], any scheduler choices [cs], any
+    faults): whenever an operation [c] completes a turn of server [i] and leaves
+    it leader, that turn was fed answers [rs] containing a lookup answer that
+    names [i]'s own instance id. *)
+Theorem C14_holder_only_interleaved : forall thr ids cs c i s p s',
+  let y := oexec thr cs (new_ocfg ids) in
+  nth_error (oc_pool y) i = Some (mkO s (Some p)) ->
+  nth_error (oc_pool (fst (ostep thr c y))) i = Some (mkO s' None) ->
+  s_role s' = Leader ->
+  exists tick rs pn, feed (turn_prog thr s tick) rs = Some (s', pn) /\ read_own (s_id s) rs /\ s_id s' = s_id s.
+Proof. exact o_holder_only. Qed.
+Print Assumptions C14_holder_only_interleaved.
+
 (* ------------------------------------------------------------------ *)
 (** ** 2. Step-down *)
 
@@ -57,6 +71,18 @@ Theorem C14_step_down_turn : forall thr who fl r s tick r' s' pn evs,
   s_role s' = Follower /\ r' = r /\ evs = [ERead who (read_resp (f_r1 fl) r)].
 Proof. exact step_down_turn. Qed.
 Print Assumptions C14_step_down_turn.
+
+(** At operation granularity: a leader that has started its turn and whose
+    lookup - whenever it is scheduled - fails or names somebody else is a
+    follower and between turns right after that lookup; the record is untouched. *)
+Theorem C14_step_down_interleaved : forall thr y i s tick f,
+  nth_error (oc_pool y) i = Some (mkO s (Some (turn_prog thr s tick))) ->
+  s_role s = Leader ->
+  (f <> FOk \/ fst (lookup (oc_rec y)) <> s_id s) ->
+  exists s', nth_error (oc_pool (fst (ostep thr (COp i f) y))) i = Some (mkO s' None) /\
+             s_role s' = Follower /\ s_id s' = s_id s /\ oc_rec (fst (ostep thr (COp i f) y)) = oc_rec y.
+Proof. exact o_step_down. Qed.
+Print Assumptions C14_step_down_interleaved.
 
 (* ------------------------------------------------------------------ *)
 (** ** 3. Two campaigns against the same holder never both succeed *)
